@@ -106,6 +106,22 @@ pub struct FixedWindowRoller {
     cond_pair: Arc<(Mutex<bool>, Condvar)>,
 }
 
+/// The hand-off state of the rotation threads is shared by all rollers built for the same pattern: a roller
+/// that replaces another one (an appender rebuilt by a reconfiguration) archives into the same files and has
+/// to wait for the rotation its predecessor started.
+#[cfg(feature = "background_rotation")]
+fn cond_pair_for(pattern: &str) -> Arc<(Mutex<bool>, Condvar)> {
+    use once_cell::sync::Lazy;
+    use std::collections::HashMap;
+    static PAIRS: Lazy<Mutex<HashMap<String, Arc<(Mutex<bool>, Condvar)>>>> =
+        Lazy::new(|| Mutex::new(HashMap::new()));
+    PAIRS
+        .lock()
+        .entry(pattern.to_owned())
+        .or_insert_with(|| Arc::new((Mutex::new(true), Condvar::new())))
+        .clone()
+}
+
 impl FixedWindowRoller {
     /// Returns a new builder for the `FixedWindowRoller`.
     pub fn builder() -> FixedWindowRollerBuilder {
@@ -315,7 +331,7 @@ impl FixedWindowRollerBuilder {
             base: self.base,
             count,
             #[cfg(feature = "background_rotation")]
-            cond_pair: Arc::new((Mutex::new(true), Condvar::new())),
+            cond_pair: cond_pair_for(pattern),
         })
     }
 }
